@@ -6,8 +6,12 @@ Driver mode `c09` (see harness/c09.cpp for the line format).
 
 (a) constraint generation, three modes (cy = generateYConstraints, cx0/cx1 =
     generateXConstraints without / with neighbour lists):
-    * tie-free input (all scan-line keys distinct, no two order-relevant events at one position):
-      the implementation's constraint multiset must equal the model's exactly → else DIVERGE;
+    * the model is run with rank = variable id (CmpNodePos breaks ties between equal centres by
+      variable id; the harness passes distinct ids) and the stable event order.  On order-free
+      input (no two Close events at one position for cy/cx0, no two Open events at one position
+      for cx1 - the only place where qsort's unspecified order of same-type events can change
+      the multiset) the implementation's constraint multiset must equal the model's exactly →
+      else DIVERGE; coincident centres are compared exactly too;
     * always (spec-determined, independent of heap addresses and of qsort's handling of equal
       events): the implementation's constraint set must be acyclic (ordering witness checked by
       `acyclicBy`); for cy/cx0 every pair whose scan extents meet must be joined by a chain of
@@ -68,31 +72,35 @@ def Acc.fail (a : Acc) (v : Verdict) : Acc :=
   | .diverge _, _ => a
   | _, v => { a with verdict := v }
 
-def checkGen (acc : Acc) (c : Case) (rs : Array Rect) (gbx gby : Rat) (mode : Mode) : Acc := Id.run do
+def checkGen (acc : Acc) (c : Case) (rs : Array Rect) (vid : Array Nat) (gbx gby : Rat) (mode : Mode) : Acc := Id.run do
   let n := rs.size
   let key := mode.key
   let ax := if mode == .cy then yAxis rs gbx gby else xAxis rs gbx gby
   let nl := mode == .cx1
   let mut acc := acc
-  let some impl := parseCons (c.get key) | return acc.fail (.diverge s!"{key}: unparsable constraint line")
+  let some implIds := parseCons (c.get key) | return acc.fail (.diverge s!"{key}: unparsable constraint line")
+  -- constraints name variable ids; translate to rectangle indices
+  let idx := fun (i : Nat) => (vid.findIdx? (· == i)).getD n
+  let impl := implIds.map fun k => Con.mk (idx k.l) (idx k.r) k.gap
   match (c.get "gdone").find? (fun l => l[0]? == some key) with
   | none => return acc.fail (.diverge s!"{key}: generator did not finish")
   | some l => if nat! (l[1]?.getD "0") != impl.length then return acc.fail (.diverge s!"{key}: count mismatch")
-  -- model with the default parameters: rank = index, stable event order
-  let lt := keyLt ax id
+  -- model: rank = variable id (the tie-break of CmpNodePos), stable event order
+  let lt := keyLt ax (fun i => vid.getD i i)
   let evs := sortEvents ax n
   let model := if nl then scanNL ax lt evs [] SMap.empty SMap.empty
                else scanPtr ax lt evs [] PMap.empty PMap.empty
   let si := sortCons impl
   let sm := sortCons model
   let same := si == sm
-  let tf := tieFree ax n nl
+  let tf := orderFree ax n nl
+  if tieFree ax n nl then acc := acc.bump s!"{key}.oldTieFree"
   acc := acc.bump s!"{key}.constraints" impl.length
   if tf then
-    acc := acc.bump s!"{key}.tiefree.strict"
-    if !same then acc := acc.fail (.diverge s!"{key}: tie-free input, constraint multiset differs from model: {firstDiff si sm}")
+    acc := acc.bump s!"{key}.exact"
+    if !same then acc := acc.fail (.diverge s!"{key}: order-free input, constraint multiset differs from model: {firstDiff si sm}")
   else
-    acc := acc.bump (if same then s!"{key}.ties.sameAsDefaultModel" else s!"{key}.ties.otherTieBreak")
+    acc := acc.bump (if same then s!"{key}.eventTies.sameAsStableOrder" else s!"{key}.eventTies.otherOrder")
   -- spec-determined facts, on the implementation's constraints
   match topoPos n impl with
   | none => acc := acc.fail (.specfail s!"{key}: generated constraint graph is cyclic (or names a variable ≥ n)")
@@ -153,7 +161,9 @@ def checkRemove (acc : Acc) (c : Case) (rs : Array Rect) : Acc := Id.run do
   | none => pure ()
   -- fixed rectangles
   let fixed := ((c.get1 "fixed").getD #[]).map nat!
-  let total : Rat := rs.foldl (fun s r => s + ((r.maxX - r.minX) + (r.maxY - r.minY)) / 2) 0
+  -- "average rectangle size": mean of (width()+height())/2 as the getters report them, i.e.
+  -- including the user's borders (these bordered rectangles are what removeoverlaps separates)
+  let total : Rat := rs.foldl (fun s r => s + ((r.maxX - r.minX + 2 * rbx) + (r.maxY - r.minY + 2 * rby)) / 2) 0
   let avg : Rat := if n == 0 then 0 else total / n
   for f in fixed do
     let a := rectAt rs f
@@ -177,11 +187,14 @@ def checkCase (c : Case) : CaseResult := Id.run do
   let n := nat! (((c.get1 "n").getD #["0"])[0]!)
   if rs.size != n then return { verdict := .diverge "rectangle count mismatch" }
   let some (gbx, gby) := pair? c "gb" | return { verdict := .diverge "gb line missing" }
+  let vid := ((c.get1 "vid").getD #[]).map nat!
+  if vid.size != n then return { verdict := .diverge "vid line missing" }
+  if !pairwiseB (fun a b => a != b) vid.toList then return { verdict := .diverge "variable ids not distinct" }
   let mut acc : Acc := {}
   acc := acc.bump (sizeBucket n)
-  acc := checkGen acc c rs gbx gby .cy
-  acc := checkGen acc c rs gbx gby .cx0
-  acc := checkGen acc c rs gbx gby .cx1
+  acc := checkGen acc c rs vid gbx gby .cy
+  acc := checkGen acc c rs vid gbx gby .cx0
+  acc := checkGen acc c rs vid gbx gby .cx1
   acc := checkRemove acc c rs
   let nontrivial := (acc.stats.any fun (k, v) => k == "ro.hadOverlap" && v > 0)
   return { verdict := acc.verdict, nontrivial := nontrivial, stats := acc.stats }
